@@ -466,38 +466,67 @@ fn rejected_by_panic(sig: c_int) -> bool {
     sig < 0 || (sig as usize) >= MAX_SIGNUM || signal_hook_registry::FORBIDDEN.contains(&sig)
 }
 
+// Two consecutive add_signal calls for an accepted number, registry answering Ok/Err freely.
+unsafe fn two_adds(h: &Handle, sig: c_int) {
+    REG_FAIL[0] = kani::any();
+    REG_FAIL[1] = kani::any();
+    REG_CALLS = 0;
+    let first_failed = REG_FAIL[0];
+    let r1 = h.add_signal(sig);
+    assert!(r1.is_err() == first_failed, "C12.ERR-PASSTHROUGH: add_signal fails exactly when the registration failed");
+    assert!(REG_CALLS == 1 && REG_SIGNAL == sig, "C12.REGISTER-ONCE: one registration attempt for the requested number");
+    let r2 = h.add_signal(sig);
+    if first_failed {
+        assert!(REG_CALLS == 2, "C12.RETRY: after a failed add_signal a later add_signal of the same number behaves like a first call (it registers again)");
+        assert!(r2.is_err() == REG_FAIL[1], "C12.RETRY: and reports that attempt's outcome");
+        kani::cover!(r2.is_ok(), "C12.cover: retry succeeded");
+    } else {
+        assert!(REG_CALLS == 1 && r2.is_ok(), "C12.IDEMPOTENT: re-adding a watched signal is a no-op that succeeds");
+    }
+    std::mem::forget(r1);
+    std::mem::forget(r2);
+}
+
+// (a) the real 128-entry table and the info-carrying exfiltrator, one representative signal
 #[kani::proof]
 #[kani::unwind(130)]
 #[kani::stub(signal_hook_registry::register_sigaction, register_sigaction_stub)]
-#[kani::stub(signal_hook_registry::unregister, unregister_stub)]
-fn c12_add_signal_accepted() {
+fn c12_retry_raw() {
+    lm::link();
+    let sd = SignalDelivery::with_pipe(Fd(RFD), Fd(WFD), WithRawSiginfo, (&[] as &[c_int]).iter()).unwrap();
+    let h = sd.handle();
+    unsafe { two_adds(&h, libc::SIGUSR1) };
+    std::mem::forget(h);
+    std::mem::forget(sd);
+}
+
+// (a') the same on the shortened table, every accepted index
+#[kani::proof]
+#[kani::unwind(7)]
+#[kani::stub(signal_hook_registry::register_sigaction, register_sigaction_stub)]
+fn c12_retry_raw_small() {
     lm::link();
     let sd = SignalDelivery::with_pipe(Fd(RFD), Fd(WFD), WithRawSiginfo, (&[] as &[c_int]).iter()).unwrap();
     let h = sd.handle();
     let sig: c_int = kani::any();
     kani::assume(!rejected_by_panic(sig));
-    unsafe {
-        REG_FAIL[0] = kani::any();
-        REG_FAIL[1] = kani::any();
-        REG_CALLS = 0;
-    }
-    let first_failed = unsafe { REG_FAIL[0] };
-    let r1 = h.add_signal(sig);
-    assert!(r1.is_err() == first_failed, "C12.ERR-PASSTHROUGH: add_signal fails exactly when the registration failed");
-    unsafe {
-        assert!(REG_CALLS == 1 && REG_SIGNAL == sig, "C12.REGISTER-ONCE: one registration attempt for the requested number");
-    }
-    // the same call again
-    let r2 = h.add_signal(sig);
-    unsafe {
-        if first_failed {
-            assert!(REG_CALLS == 2, "C12.RETRY: after a failed add_signal a later add_signal of the same number behaves like a first call (it registers again)");
-            assert!(r2.is_err() == REG_FAIL[1], "C12.RETRY: and reports that attempt's outcome");
-            kani::cover!(r2.is_ok(), "C12.cover: retry succeeded");
-        } else {
-            assert!(REG_CALLS == 1 && r2.is_ok(), "C12.IDEMPOTENT: re-adding a watched signal is a no-op that succeeds");
-        }
-    }
+    unsafe { two_adds(&h, sig) };
+    std::mem::forget(h);
+    std::mem::forget(sd);
+}
+
+// (b) every accepted index of the (shortened) table, flag exfiltrator; then tear-down
+#[kani::proof]
+#[kani::unwind(6)]
+#[kani::stub(signal_hook_registry::register_sigaction, register_sigaction_stub)]
+#[kani::stub(signal_hook_registry::unregister, unregister_stub)]
+fn c12_add_and_drop() {
+    lm::link();
+    let sd = SignalDelivery::with_pipe(Fd(RFD), Fd(WFD), SignalOnly, (&[] as &[c_int]).iter()).unwrap();
+    let h = sd.handle();
+    let sig: c_int = kani::any();
+    kani::assume(!rejected_by_panic(sig));
+    unsafe { two_adds(&h, sig) };
     // ---- tear-down: every registration that succeeded, and only those, is removed exactly once ----
     let registered = unsafe { KEPT };
     drop(h);
@@ -508,8 +537,28 @@ fn c12_add_signal_accepted() {
         if registered == 1 {
             assert!(UNREG_IDS[0] == NEXT_ID - 1, "C12.DROP-ALL: with the id the registry handed out");
         }
-        // the pipe ends are closed by their owners' drop glue (Fd has no Drop here; ledger A3)
+        kani::cover!(registered == 1, "C12.cover: one registration torn down");
     }
+}
+
+// (c) constructor: the first failing signal aborts construction and what was registered is removed
+#[kani::proof]
+#[kani::unwind(6)]
+#[kani::stub(signal_hook_registry::register_sigaction, register_sigaction_stub)]
+#[kani::stub(signal_hook_registry::unregister, unregister_stub)]
+fn c12_ctor_clean() {
+    lm::link();
+    unsafe {
+        REG_FAIL[0] = false;
+        REG_FAIL[1] = true;
+    }
+    let r = SignalDelivery::with_pipe(Fd(RFD), Fd(WFD), SignalOnly, [1 as c_int, 2, 3].iter());
+    assert!(r.is_err(), "C12.CTOR-CLEAN: a constructor whose second signal is refused fails");
+    unsafe {
+        assert!(REG_CALLS == 2, "C12.CTOR-CLEAN: construction stops at the first refused signal");
+        assert!(UNREG_CALLS == 1 && UNREG_IDS[0] == NEXT_ID - 1, "C12.CTOR-CLEAN: the registration made before the failure is removed again (nothing stays registered)");
+    }
+    std::mem::forget(r);
 }
 
 // rejected-by-panic inputs: no effect (exfiltrator init, registration, table write) before the panic
